@@ -436,7 +436,7 @@ def smallest_cap(algo, K, n, k=1):
 # rewards
 
 OPEN_FAMILIES = ["neg", "const", "zero", "tied", "noisy", "large", "large_off", "unit", "drift", "altext",
-                 "incr", "decr", "best_first", "best_last", "twoval", "quant5", "bern", "negbern", "nonpos3", "hugeneg", "intnormal", "intwide", "int3wide", "records", "negzero", "alt010"]
+                 "incr", "decr", "best_first", "best_last", "twoval", "quant5", "bern", "negbern", "nonpos3", "hugeneg", "intnormal", "intwide", "int3wide", "records", "negzero", "alt010", "huge_off"]
 HUGE_FAMILIES = ["huge"]
 CLOSED_FAMILIES = ["cl_hump", "cl_sine", "cl_garland", "cl_step", "cl_negdist"]
 
@@ -475,6 +475,11 @@ def open_rewards(fam, seed, T):
         return rng.normal(0, 1, T) * 1e6
     if fam == "large_off":
         return 1e6 + rng.normal(0, 1, T)
+    if fam == "huge_off":
+        # a common offset of 3e6 .. 1e9 (either sign) with unit-scale noise: |mean| / spread >= 1e6, where raw-moment
+        # variances (E x^2 - (E x)^2) and naively accumulated sums lose every significant digit
+        off = float(10 ** rng.uniform(6.5, 9)) * (1 if rng.random() < 0.6 else -1)
+        return off + rng.normal(0, 1, T) * float(10 ** rng.uniform(-1, 0.5))
     if fam == "unit":
         return rng.random(T)
     if fam == "drift":
